@@ -138,6 +138,27 @@ def primary_cases():
             if blk['type'] == B.T_PREV_NODE:
                 blk['data'] = pdata
         yield (lab, b)
+    # hop-by-hop blocks written in valid CBOR that is not the shortest form (longer integer heads, an
+    # indefinite-length array, a longer text head): they are what they are and are handled as such
+    for (pname, typ, pdata) in (('hop-count-long-heads', B.T_HOP_COUNT, b'\x82\x18\x1e\x18\x02'), ('hop-count-indefinite-array', B.T_HOP_COUNT, b'\x9f\x18\x1e\x02\xff'),
+                                ('hop-count-two-octet-heads', B.T_HOP_COUNT, b'\x82\x19\x00\x1e\x19\x00\x02'),
+                                ('previous-node-long-text-head', B.T_PREV_NODE, b'\x82\x01\x78\x07//prev/'), ('previous-node-indefinite-array', B.T_PREV_NODE, b'\x9f\x01\x67//prev/\xff')):
+        (lab, b) = mk(dict(primary='%s' % pname))
+        for blk in b['blocks']:
+            if blk['type'] == typ:
+                blk['data'] = pdata
+        yield (lab, b)
+    # block numbers at the top of the 64-bit range on blocks that survive forwarding: the blocks the node adds get
+    # numbers that are free AND representable
+    for top in (2 ** 64 - 1, 2 ** 64 - 2):
+        (lab, b) = mk(dict(primary='unknown block numbered %d' % top, unk=True))
+        b['blocks'].insert(0, dict(type=199, num=top, flags=0, crc_type=1, data=b'\x01\x02'))
+        yield (lab, b)
+        (lab, b) = mk(dict(primary='hop-count block numbered %d' % top))
+        for blk in b['blocks']:
+            if blk['type'] == B.T_HOP_COUNT:
+                blk['num'] = top
+        yield (lab, b)
     for bflags in (0x80, 0x81, 0x28, 0x1000001):
         (lab, b) = mk(dict(primary='unknown block with block flags %#x' % bflags, unk=True))
         b['blocks'].insert(0, dict(type=199, num=5, flags=bflags, crc_type=1, data=b'\x01\x02'))
